@@ -22,7 +22,10 @@ class ReplaceMultiTargetAssign(ast.NodeTransformer):
             return node
 
         # Transform multi-target assign to single target assigns
-        if isinstance(node.value, ast.Name):
+        # (a tuple that is also one of the targets has to be read through a temporary)
+        if isinstance(node.value, ast.Name) and node.value.id not in [
+            getattr(t, "id", None) for t in node.targets[0].elts
+        ]:
             return [
                 self.visit(
                     ast.Assign(
